@@ -50,6 +50,12 @@ pub mod sched {
         FIXED_ITEM_ORDER.store(fixed_item_order, std::sync::atomic::Ordering::SeqCst);
         WINDOW.store(window, std::sync::atomic::Ordering::SeqCst);
     }
+    /// Outside wide mode a region of more than this many items is not permuted (its item-level tree alone would have more than
+    /// 64! leaves, and the list of its first-level deviations does not fit in memory for thousands of items): its items run
+    /// one after the other in item order, like a warm-up region, and the region is counted in LARGE_INLINE so that the driver
+    /// can say so in the evidence. The wide worlds (fixed item order + window) are the ones that look inside such regions.
+    pub const MAX_PERMUTED_REGION: usize = 64;
+    pub static LARGE_INLINE: std::sync::atomic::AtomicU64 = std::sync::atomic::AtomicU64::new(0);
     /// Before the process is ended because of a deadlock the description is written to the file named by VERIF_DEADLOCK_FILE.
     fn note_deadlock(msg: &str) {
         eprintln!("{}", msg);
@@ -320,7 +326,11 @@ fn run_region<'a, T: Send + 'a>(thunks: Vec<Thunk<'a, T>>) -> (Vec<Option<T>>, V
     {
         let mut g = sched::STATE.lock().unwrap();
         let st = g.as_mut().unwrap();
-        if st.regions < sched::WARMUP.load(std::sync::atomic::Ordering::SeqCst) {
+        let large = n > sched::MAX_PERMUTED_REGION && !sched::FIXED_ITEM_ORDER.load(std::sync::atomic::Ordering::SeqCst);
+        if large && st.regions >= sched::WARMUP.load(std::sync::atomic::Ordering::SeqCst) {
+            sched::LARGE_INLINE.fetch_add(1, std::sync::atomic::Ordering::SeqCst);
+        }
+        if large || st.regions < sched::WARMUP.load(std::sync::atomic::Ordering::SeqCst) {
             st.regions += 1;
             st.tasks += n as u64;
             drop(g);
